@@ -468,6 +468,18 @@ func run(r *mon.Run) {
 			diffParse(r, s, "corner", 1)
 			r.Distinct("corner|" + s)
 		}
+		// numbers around and far beyond the 64-bit range (a value that wraps modulo 2^64 must never be taken for a small one)
+		for _, n := range []string{"9223372036854775806", "9223372036854775807", "9223372036854775808", "18446744073709551615", "18446744073709551616", "18446744073709551658",
+			"36893488147419103232", "27670116110564327424", "1" + strings.Repeat("0", 65), "99999999999999999999", "100000000000000000000", "340282366920938463463374607431768211456",
+			"00000000000000000001", "000000000000000000000000000000000000000042", "9223372036854775807000", strings.Repeat("9", 100)} {
+			for _, sign := range []string{"", "-"} {
+				for _, shape := range []string{"%s", "a;b=%s", "%s;%s", "x, %s", "a;b=%s;c=1"} {
+					in := strings.ReplaceAll(shape, "%s", sign+n)
+					diffParse(r, in, "big-number", 1)
+				}
+			}
+		}
+		r.Distinct("big-numbers")
 	}
 
 	// generated values, serialized and re-parsed
